@@ -15,7 +15,8 @@
 (*   part   : truncate at 0, 1, 1/4, 1/2, len-1; drop the part             *)
 (*   reccut : one BIFF record truncated to its first k payload bytes,       *)
 (*            k = 0..47 (a record ending inside any of its header fields)   *)
-(*   xmltag : one XML tag (start / end / empty-element) deleted or doubled  *)
+(*   xmltag : one XML tag (start / end / empty-element) deleted or doubled, *)
+(*            or the part cut right after / in the middle of that tag       *)
 (*   rec    : one BIFF / BIFF12 record with a consistent length field:     *)
 (*            1 / 5 stray bytes at the end or before the last two payload  *)
 (*            bytes, 1 / 2 missing bytes, record duplicated, record dropped *)
